@@ -1,6 +1,7 @@
 package sim
 
 import (
+	"encoding/hex"
 	"encoding/json"
 	"fmt"
 	"os"
@@ -101,6 +102,13 @@ func (w *World) collect() {
 		res.Segments = w.Tap.segs
 		for k, v := range w.Tap.kinds {
 			res.Probes["seg:"+k] += v
+		}
+		if w.Spec.Dump {
+			res.Geo = w.Tap.geo
+			res.Wire = map[string]string{}
+			for k, v := range w.Tap.wire {
+				res.Wire[k] = hex.EncodeToString(v)
+			}
 		}
 		w.Tap.mu.Unlock()
 	}
